@@ -154,6 +154,17 @@ CHECKS = {
         "Memory exhaustion and hangs are observable only on enumerated inputs (RLIMIT_AS 3 GiB, 8 s CPU).",
         "DESIGN.md §2 C04",
     ),
+    "C02": (
+        "exploration",
+        "bounded-exhaustive enumeration over a boundary-value alphabet (E2): operation x rounding mode x operand tuple, each run folded and through the Z3 translation (ground evaluation); exact-rational IEEE reference",
+        "All arithmetic (add, sub, mul, div, sqrt), comparisons, classification, abs/neg, float<->double, float->int at "
+        "8/32/64 bits signed and unsigned, int->float, raw reinterpretation, fpFP and FPV construction, in all five "
+        "rounding modes over ~47 boundary values per sort (quick: 16) and all pairs; thorough adds a closure round "
+        "(depth-1 results as operands). Exhaustive over that alphabet only.",
+        "Values outside the alphabet are not covered (float32/64 cannot be enumerated). fpref is self-tested against "
+        "hardware and Z3 ground evaluation at set-up. Known finding: folding ignores non-RNE rounding modes (exact case lists).",
+        "DESIGN.md §2 C02",
+    ),
 }
 
 NOT_YET = "check not built yet in this session (planned; see DESIGN.md §2)"
